@@ -84,14 +84,13 @@ pub fn bytes_json(b: &[u8]) -> Value {
 
 pub fn json_bytes(v: &Value) -> Result<Vec<u8>, String> {
     let a = v.as_array().ok_or_else(|| format!("expected octet array, got {v}"))?;
-    a.iter()
-        .map(|x| {
-            x.as_u64()
-                .filter(|n| *n <= 255)
-                .map(|n| n as u8)
-                .ok_or_else(|| format!("bad octet {x}"))
-        })
-        .collect()
+    // built the way an application grows a buffer: the vector (and any String made from it) ends up
+    // with spare capacity, which must make no difference to the codec
+    let mut out = Vec::with_capacity(a.len() + 5 + a.len() % 11);
+    for x in a {
+        out.push(x.as_u64().filter(|n| *n <= 255).map(|n| n as u8).ok_or_else(|| format!("bad octet {x}"))?);
+    }
+    Ok(out)
 }
 
 pub fn json_u16(v: &Value) -> Result<u16, String> {
